@@ -62,7 +62,9 @@ fn apply(tr: &mut Trace, run: usize, s: &mut Sess, op: &Value, texts_by_len: &dy
             tr.emit(json!({"ev": "set_subset", "run": run, "bits": bits}));
         }
         "analyse" | "toolong" => {
-            let text = if op["op"] == "toolong" { "あ".repeat(16400) } else if op.get("text").is_some() { from_cps(&op["text"]) } else { texts_by_len(op["n"].as_u64().unwrap()) };
+            // refused inputs come in two kinds: too long as given (refused before any work), and short enough as given but
+            // growing beyond the limit under normalisation (refused when the edits are committed; U+FDFA grows from 3 to 33 bytes)
+            let text = if op["op"] == "toolong" { if tr.n % 5 != 1 { "あ".repeat(16400) } else { "\u{FDFA}".repeat(2100) } } else if op.get("text").is_some() { from_cps(&op["text"]) } else { texts_by_len(op["n"].as_u64().unwrap()) };
             let r = catch(std::panic::AssertUnwindSafe(|| { s.tok.reset().push_str(&text); s.tok.do_tokenize() }));
             let res = match r { Ok(Ok(())) => "ok", Ok(Err(_)) => "err", Err(_) => "panic" };
             let f = fresh(&s.dict, s.mode, s.req, &text);
